@@ -748,7 +748,7 @@ def run(ck):
     for v in ck.violations:
         (first if v['class'] not in seen else rest).append(v); seen.add(v['class'])
     ck.violations[:] = first + rest
-    ck.assumptions += ['lark grammar/lexer of stil.py: exercised through generated texts, not modelled (the model starts at the parse result)',
+    ck.assumptions += ['grammar/lexer of stil.py: modelled (Model/StilText.lean, round-trip theorem) and compared with lark on generated, hand-written and mutated texts (parse tree with all tokens, dictionaries); that lark implements the grammar as the model reads it is checked there, not proved',
                        'the 8-valued simulation inside tests_loc is a parameter of the model (real LogicSim run on the init matrix); '
                        'ground truth for the next state is the generator\'s own gate-by-gate evaluation with the documented algebra',
                        'NumPy broadcasting of one-character strings is outside the model (strings have chain/group length)',
